@@ -38,10 +38,11 @@ STR_METHODS = {"split", "lower", "upper", "strip", "lstrip", "rstrip", "startswi
 
 
 class PE:
-    def __init__(self, model, rule, construct, oracle=None, call_hook=None):
+    def __init__(self, model, rule, construct, oracle=None, call_hook=None, on_expr=None):
         self.m, self.rule, self.construct = model, rule, construct
         self.oracle = oracle  # oracle(pe, test_node) -> bool | None
         self.call_hook = call_hook  # call_hook(pe, call_node) -> value | None
+        self.on_expr = on_expr  # on_expr(pe, stmt): expression statements met on the path (calls made for their effect)
         self.env = {}
         self.alg = Alg()
 
@@ -271,6 +272,8 @@ class PE:
             if isinstance(s, ast.Pass):
                 continue
             if isinstance(s, ast.Expr):
+                if self.on_expr is not None:
+                    self.on_expr(self, s)
                 continue
             self.err("statement kind %s not handled" % type(s).__name__, s)
         return None
